@@ -58,6 +58,8 @@ func RecursiveCopyOrLinkFile(from string, to string, mode os.FileMode, link, fal
 		return err
 	}
 	if info.IsDir() {
+		// The walk reports cleaned paths, so the prefix we strip from them has to be the cleaned one too.
+		from = filepath.Clean(from)
 		return WalkMode(from, func(name string, fileMode Mode) error {
 			dest := filepath.Join(to, name[len(from):])
 			if fileMode.IsDir() {
